@@ -352,7 +352,7 @@ def explore(chk, h, tier, only=None):
                 m = re.search(r"BEGIN k=%d\n(.*?)(?:BEGIN k=|$)" % hit, err2, re.S)
                 frames = re.findall(r"#\d+ 0x[0-9a-f]+ in (\S+)", m.group(1) if m else "")
                 where = ">".join([f for f in frames if not f.startswith("__") and f not in SKIP_FRAMES][:4])
-                key = "lsan-leak:site:%s" % site
+                key = "lsan-leak:alloc:%s" % ">".join(where.split(">")[:3])
                 chk.violation(key, "C16 scenario %s, allocation #%d of %d fails%s (in %s): LeakSanitizer reports leaked memory that was not "
                               "allocated through the interposed allocator (allocated in %s)" % (s[0], hit, base["count"],
                               " and every later one" if sticky else "", site, where),
